@@ -62,8 +62,3 @@ func Check(want command.Command, enc Encoded, chunks []int, res Result, i int) s
 
 	return ""
 }
-
-// Raw wraps hand-written bytes of one command as an Encoded value (literal headers are found by the caller's count).
-func Raw(text string, gates ...int) Encoded {
-	return Encoded{Bytes: []byte(text), Gates: gates, Literals: len(gates)}
-}
